@@ -102,6 +102,8 @@ let parse_op = function
   | ["MuxClearAll"; u] -> MuxClearAll (hd_ u)
   | ["CloneEnum"; e] -> EnumClone (hd_ e)
   | ["CloneEval"; v] -> EvalClone (hd_ v)
+  | ["MsgUpdateSize"; m; n; f] -> MsgResize (hd_ m, zz n, bb f)
+  | ["BusSetType"; b; t] -> BusSetType (hd_ b, zz t)
   | l -> L3 (parse_op3 l)
 
 let cause_s = function
@@ -136,8 +138,8 @@ let dump (s2 : state2) : string =
       Some (z_of_pos h, Printf.sprintf "%s%s:%s" tag (ps h) (String.concat "," (List.map ps (sort_by z_of_pos l))))) (refs_list m) in
   let items =
     heap (fun h r -> Printf.sprintf "N%s:b=%s;bn=%s" (ps h) (set_s r.n_buses) (mnh r.n_busNames)) (heap_nets s)
-    @ heap (fun h r -> Printf.sprintf "B%s:n=%s;p=%s;ni=%s;nn=%s;id=%s;st=%s" (ps h) (ns r.b_name) (opt r.b_parent)
-               (mhh r.b_nodeInts) (mnh r.b_nodeNames) (mzh r.b_nodeIDs) (mzh r.b_static)) (heap_buses s)
+    @ heap (fun h r -> Printf.sprintf "B%s:n=%s;p=%s;ni=%s;nn=%s;id=%s;st=%s;ty=%s" (ps h) (ns r.b_name) (opt r.b_parent)
+               (mhh r.b_nodeInts) (mnh r.b_nodeNames) (mzh r.b_nodeIDs) (mzh r.b_static) (zs r.b_type)) (heap_buses s)
     @ heap (fun h r -> Printf.sprintf "O%s:n=%s;id=%s;if=%s;c=%s" (ps h) (ns r.nd_name) (zs r.nd_id)
                (list_s r.nd_ifaces) (zs r.nd_count)) (heap_nodes s)
     @ heap (fun h r -> Printf.sprintf "I%s:nd=%s;k=%s;p=%s;s=%s;sn=%s;si=%s;ss=%s;r=%s" (ps h) (ps r.i_node)
@@ -190,6 +192,12 @@ module C1 = struct
   let coqz_of_z (n : BZ.t) : z =
     if BZ.sign n = 0 then Z0 else if BZ.sign n > 0 then Zpos (pos_of_z n) else Zneg (pos_of_z (BZ.neg n))
   let cz s = coqz_of_z (BZ.of_string s)
+  let cn_z = cz
+  let rec z_of_pos = function
+    | XH -> BZ.one
+    | XO p -> BZ.shift_left (z_of_pos p) 1
+    | XI p -> BZ.succ (BZ.shift_left (z_of_pos p) 1)
+  let z_of_coqz = function Z0 -> BZ.zero | Zpos p -> z_of_pos p | Zneg p -> BZ.neg (z_of_pos p)
   let rec nat_of_int n = if n <= 0 then O else S (nat_of_int (n - 1))
   let rec int_of_nat = function O -> 0 | S n -> 1 + int_of_nat n
   let cn s = nat_of_int (int_of_string s)
@@ -198,7 +206,7 @@ module C1 = struct
     | OutOfBounds -> "OutOfBounds" | IsZero -> "IsZero" | IsNil -> "IsNil"
     | NoSpaceLeft -> "NoSpaceLeft" | Intersect -> "Intersect" | TooSmall -> "TooSmall" | TooBig -> "TooBig"
   let result_s = function
-    | ROk -> "ok" | RErr c -> "err:" ^ cause_s c | RShift _ -> "shift" | RPanic -> "panic" | RInvalid -> "invalid"
+    | ROk -> "ok" | RErr c -> "err:" ^ cause_s c | RShift d -> "shift:" ^ BZ.to_string (z_of_coqz d) | RPanic -> "panic" | RInvalid -> "invalid"
   (* the subset of the C01 vocabulary the C04 harness writes (props/C04/harness/c01bridge.go) *)
   let parse_op (words : string list) : op =
     match words with
@@ -223,6 +231,14 @@ module C1 = struct
     | ["muxremove"; u; x] -> OMuxRemove (cn u, cn x)
     | ["muxcleargroup"; u; g] -> OMuxClearGroup (cn u, cz g)
     | ["muxclearall"; u] -> OMuxClearAll (cn u)
+    | ["shl"; m; x; a] -> OShiftL (cn m, cn x, cz a)
+    | ["shr"; m; x; a] -> OShiftR (cn m, cn x, cz a)
+    | ["muxshl"; u; x; a] -> OMuxShiftL (cn u, cn x, cz a)
+    | ["muxshr"; u; x; a] -> OMuxShiftR (cn u, cn x, cz a)
+    | ["compact"; m] -> OCompact (cn m)
+    | ["resize"; m; n] -> OResize (cn m, cz n)
+    | ["resizebus"; m; n; lim] -> OResizeBus (cn m, cz n, cz lim)
+    | ["setminsize"; e; n] -> OSetMinSize (cn e, cn_z n)
     | l -> failwith ("bad C01 op: " ^ String.concat " " l)
   (* rebuild the function-valued fields from arrays so that closure chains do not grow with the
      history (as in props/C01/driver/c01_driver.ml; extensionally the same state) *)
@@ -253,6 +269,7 @@ module C1 = struct
     let ok = match cls, r with
       | "ok", ROk -> true
       | "layout", RErr _ -> true
+      | _, RShift d -> cls = "shift:" ^ BZ.to_string (z_of_coqz d)
       | _ -> false in
     (ok, result_s r)
 end
